@@ -21,7 +21,7 @@ RULE = ("cases from rng(seed, 3, 0, i): well-posed cluster graphs (1-4 clusters 
 REQ = ["eval:gn-step-applied", "eval:fixed-vertex-zero-increment", "eval:solver-boundary-H", "eval:solver-boundary-rhs", "class:parallel_edges", "class:edge_high_index_first",
        "class:mixed_dimensions", "class:custom_unary", "class:custom_ternary", "class:custom_numeric_jacobian", "class:fix_first_pose=True", "class:fix_first_pose=False",
        "class:several_fixed_per_cluster", "class:landmark_offset_rotated", "class:shared_pose_storage", "class:exact_special_values", "class:second_call_after_edits", "eval:second-call-equals-fresh-graph", "class:fixed_flags_as_int", "class:landmark_offset_zero_translation_rotated", "eval:K-iterations-equal-K-single-steps", "class:information_scales:per_edge",
-       "class:information_scales:all_tiny", "class:graph_with_100+_vertices"]
+       "class:information_scales:all_tiny", "class:graph_with_100+_vertices", "class:evaluated_then_moved_in_place", "class:edges_prebound_to_stale_vertices"]
 PLAN = {
     "quick": {"cases": 1600, "soft_s": 70, "min_nontrivial": 400, "require": REQ},
     "thorough": {"cases": 60000, "soft_s": 1200, "min_nontrivial": 10000, "require": REQ},
@@ -30,9 +30,27 @@ ASSUMPTIONS = ["well-posed graphs only (every connected component holds a fixed 
                "(the repository's boxplus clamps them) and non-finite values are counted as inconclusive; self-loop edges are not driven"]
 
 
-def one_step_check(ctx, spec, labels, ffp, case, monitor_prefix="", cond_max=1e10):
+def one_step_check(ctx, spec, labels, ffp, case, monitor_prefix="", cond_max=1e10, inplace_rng=None):
     g = M.build(spec)
     verts = g._vertices
+    if inplace_rng is not None:
+        # history: the graph is evaluated once, then its free vertices are moved by writing into the existing pose arrays; the step must be the
+        # Gauss-Newton step at the *current* values (nothing cached on object identity may survive)
+        with np.errstate(all="ignore"):
+            g.calc_chi2()
+            for e in g._edges:
+                try:
+                    e.calc_jacobians()
+                except Exception:
+                    pass
+        for v in verts:
+            if not v.fixed:
+                k0 = M.kind(v.pose)
+                v.pose[:] = M.fl(M.mkpose(k0, gen.perturb(inplace_rng, k0, M.fl(v.pose), 0.2, 0.1)))
+        labels.add("evaluated_then_moved_in_place")
+    if not ctx.check(monitor_prefix + "edges-linked-to-the-listed-vertices", M.edges_linked_to_graph(g), {"prebound": bool(spec.get("prebind_stale"))},
+                     {"note": "an edge is attached to Vertex objects that are not this graph's"}, case):
+        return False
     fixed_before = [bool(v.fixed) for v in verts]
     fixed_ids = {id(v) for v in verts if v.fixed}
     if ffp:
@@ -50,6 +68,14 @@ def one_step_check(ctx, spec, labels, ffp, case, monitor_prefix="", cond_max=1e1
             i0 = idx[id(v)]
             if np.linalg.norm(dx_ref[i0 + 3:i0 + 6]) > 0.9:
                 raise Skip("rotation increment > 0.9 (boxplus clamp domain)")
+    dx_ad = None
+    if inplace_rng is not None:
+        # after an in-place history the edges' own e / J might both be stale in the same way: cross-check with the independent assembly (reference errors, AD Jacobians)
+        try:
+            Hr, br, _, _, _ = M.assemble(g, "ref")
+            dx_ad, cond_ad = M.reduced_step(Hr, br, free)
+        except Exception:
+            dx_ad = None
     with SolverSpy() as spy:
         try:
             M.quiet_optimize(g, max_iter=1, tol=0.0, fix_first_pose=ffp)
@@ -84,6 +110,16 @@ def one_step_check(ctx, spec, labels, ffp, case, monitor_prefix="", cond_max=1e1
         ok &= ctx.check(monitor_prefix + "gn-step-applied", bool(np.all(diff <= tol * scale)), feats,
                         {"vertex": j, "applied": d_app, "expected": d_ref, "tol": tol * scale, "cond": cond, "labels": sorted(labels)}, case)
         moved = max(moved, float(np.abs(d_ref).max()))
+        if dx_ad is not None:
+            da = dx_ad[i0:i0 + c]
+            diff2 = np.abs(d_app - da)
+            if k == "se2":
+                diff2[2] = R.ang_diff(d_app[2], da[2])
+            tol2 = 1e4 * tol * scale + 1e-9
+            if any(getattr(e, "numeric", False) for e in g._edges):
+                tol2 = max(tol2, 1e-4 * scale * max(cond, 1.0) ** 0.5)  # numerically differentiated custom edges: Jacobians accurate to ~1e-6 only
+            ok &= ctx.check(monitor_prefix + "gn-step-applied(independent assembly)", bool(np.all(diff2 <= tol2)), dict(feats, history="evaluated, then moved in place"),
+                            {"vertex": j, "applied": d_app, "expected": da, "tol": tol2}, case)
     # fixed flags: exactly the ones fixed before (plus the first listed one when asked)
     flags_after = [bool(v.fixed) for v in verts]
     expect_flags = [fb or (ffp and j == 0) for j, fb in enumerate(fixed_before)]
@@ -179,7 +215,7 @@ def run_case(ctx, i, rng):
         spec, labels = gen.cluster_graph(rng, size=((30, 60) if large else (2, 12 if big else 6)), alias=bool(rng.random() < 0.25), special=bool(rng.random() < 0.3), wide_info=wide)
     labels.add("fix_first_pose=%s" % ffp)
     case = {"graph": {k: v for k, v in spec.items() if k != "truth_by_id"}, "fix_first_pose": ffp}
-    res = one_step_check(ctx, spec, labels, ffp, case, cond_max=(1e13 if wide else 1e10))
+    res = one_step_check(ctx, spec, labels, ffp, case, cond_max=(1e13 if wide else 1e10), inplace_rng=(rng if i % 5 == 3 else None))
     if i % 4 == 2:
         # every iteration of a multi-iteration call is such a step: one call of K iterations equals K calls of one iteration (each of which the
         # one-step oracle covers from its own start state)
@@ -234,3 +270,66 @@ def _dataset_case(name, nmax, augment):
 
 DATASET_CASES = [_dataset_case("intel", 150, False), _dataset_case("intel", 150, True), _dataset_case("garage", 200, False), _dataset_case("garage", 200, True),
                  _dataset_case("intel", 40, True), _dataset_case("garage", 40, True)]
+
+
+def _large_sparse_case(n_poses):
+    """A graph too large for the dense oracle (>= 25 000 unknowns): the applied increment is compared with a sparse direct solve of the normal equations
+    assembled from the real edges' own errors and Jacobians."""
+    def f(ctx):
+        import scipy.sparse as sp
+        import scipy.sparse.linalg as spla
+
+        rng = np.random.default_rng([3, n_poses])
+        spec = gen.trajectory_graph(rng, "se2", n_poses, n_loops=n_poses // 20, n_lm=0, meas_t=0.02, meas_r=0.005, init_t=0.05, init_r=0.02, cond=10.0, cross=True)
+        g = M.build(spec)
+        verts = g._vertices
+        idx, n = M.index_map(g)
+        before = M.snapshot_poses(g)
+        rows, cols, vals = [], [], []
+        b = np.zeros(n)
+        with np.errstate(all="ignore"):
+            for e in g._edges:
+                Om = np.asarray(e.information, dtype=float)
+                er = np.asarray(e.calc_error(), dtype=float)
+                Js = e.calc_jacobians()
+                for va, Ja in zip(e.vertices, Js):
+                    ia = idx[id(va)]
+                    b[ia:ia + 3] += Ja.T @ Om @ er
+                    for vb, Jb in zip(e.vertices, Js):
+                        ib = idx[id(vb)]
+                        blk = Ja.T @ Om @ Jb
+                        for r in range(3):
+                            for c in range(3):
+                                rows.append(ia + r)
+                                cols.append(ib + c)
+                                vals.append(blk[r, c])
+        H = sp.csc_matrix((vals, (rows, cols)), shape=(n, n))
+        free = np.ones(n, bool)
+        free[:3] = False
+        keep = np.where(free)[0]
+        dx = np.zeros(n)
+        dx[keep] = spla.spsolve(H[keep][:, keep], -b[keep])
+        M.quiet_optimize(g, max_iter=1, tol=0.0)
+        after = M.snapshot_poses(g)
+        worst = 0.0
+        for j, v in enumerate(verts):
+            d_app = np.array(M.applied_increment("se2", before[j], after[j]))
+            d_ref = dx[idx[id(v)]: idx[id(v)] + 3]
+            diff = np.abs(d_app - d_ref)
+            diff[2] = R.ang_diff(d_app[2], d_ref[2])
+            worst = max(worst, float(diff.max()))
+        # two direct sparse solves of a 9000-pose chain agree to eps x cond(H) ~ 1e-5 relative (observed 2e-5); the applied step must also satisfy the
+        # normal equations themselves to solver accuracy (a residual test, independent of the conditioning)
+        dx_app = np.zeros(n)
+        for j, v in enumerate(verts):
+            dx_app[idx[id(v)]: idx[id(v)] + 3] = M.applied_increment("se2", before[j], after[j])
+        resid = float(np.abs((H @ dx_app + b)[keep]).max()) / max(1e-300, float(np.abs(b).max()) + float(abs(H).max()) * float(np.abs(dx_app).max()))
+        ctx.margin("gn-step-applied(large sparse graph: residual)", resid / 1e-9)
+        ctx.check("gn-step-applied", worst <= 2e-3 * max(1.0, float(np.abs(dx).max())) and resid <= 1e-9, {"kind": "se2", "where": "large sparse graph", "unknowns": n},
+                  {"worst": worst, "max_increment": float(np.abs(dx).max()), "relative_residual": resid}, {"n_poses": n_poses})
+        ctx.count("class:graph_with_25000+_unknowns")
+        ctx.nontrivial("large-%d" % n_poses)
+    return f
+
+
+PINNED = [_large_sparse_case(9000)]  # cheap enough (4 s on one shard) to run in both tiers
